@@ -249,11 +249,42 @@ inst!(grow_dn1_k2, unwind 4, ob_realloc, LogAlloc, SDn1, 2, 64, Op::Grow, 16, 24
 inst!(grow_up8_k2, unwind 4, ob_realloc, LogAlloc<u64>, SUp8, 2, 64, Op::Grow, 16, 24, false, 0);
 inst!(grow_dn8_k2, unwind 4, ob_realloc, LogAlloc<u64>, SDn8, 2, 64, Op::Grow, 16, 24, false, 0);
 inst!(grow_zeroed_up1_k2, unwind 4, ob_realloc, LogAlloc, SUp1, 2, 64, Op::GrowZeroed, 12, 20, false, 0);
-inst!(grow_zeroed_dn8_k2, unwind 4, ob_realloc, LogAlloc, SDn8, 2, 64, Op::GrowZeroed, 12, 20, false, 0);
+// not registered (no verdict within 40 min / 14 GB on the unchanged tree, build record 10.3)
+inst!(exp_grow_zeroed_dn8_k2, unwind 4, ob_realloc, LogAlloc, SDn8, 2, 64, Op::GrowZeroed, 12, 20, false, 0);
 inst!(shrink_up1_k2, unwind 4, ob_realloc, LogAlloc, SUp1, 2, 64, Op::Shrink, 24, 24, false, 0);
 inst!(shrink_dn1_k2, unwind 4, ob_realloc, LogAlloc, SDn1, 2, 64, Op::Shrink, 24, 24, false, 0);
-inst!(shrink_dn8_k2, unwind 4, ob_realloc, LogAlloc<u64>, SDn8, 2, 64, Op::Shrink, 24, 24, false, 0);
+// not registered (same reason)
+inst!(exp_shrink_dn8_k2, unwind 4, ob_realloc, LogAlloc<u64>, SDn8, 2, 64, Op::Shrink, 24, 24, false, 0);
 inst!(without_shrink_up1_k2, unwind 4, ob_realloc, LogAlloc, SUp1, 2, 64, Op::WithoutShrinkShrink, 24, 24, false, 0);
 inst!(without_shrink_dn1_k2, unwind 4, ob_realloc, LogAlloc, SDn1, 2, 64, Op::WithoutShrinkShrink, 24, 24, false, 0);
 inst!(grow_up1_k1_128, unwind 3, ob_realloc, LogAlloc, SUp1, 1, 128, Op::Grow, 16, 32, false, 0);
 inst!(shrink_dn1_k1_128, unwind 3, ob_realloc, LogAlloc, SDn1, 1, 128, Op::Shrink, 32, 32, false, 0);
+
+// ---- thorough tier: the remaining MIN_ALIGN x direction instantiations of grow / shrink (one 48-byte chunk)
+macro_rules! rmatrix {
+    ($($name:ident: $ma:literal, $up:literal, $op:expr, $old:literal, $new:literal);*) => {
+        $(
+            #[kani::proof]
+            #[kani::unwind(3)]
+            pub(crate) fn $name() {
+                ob_realloc::<LogAlloc, St<$ma, $up, true, true, true>>(1, 64, $op, $old, $new, false, 0);
+            }
+        )*
+    };
+}
+rmatrix!(
+    grow_up2_t: 2, true, Op::Grow, 8, 12;
+    grow_up4_t: 4, true, Op::Grow, 8, 12;
+    grow_up16_t: 16, true, Op::Grow, 8, 12;
+    grow_dn2_t: 2, false, Op::Grow, 8, 12;
+    grow_dn4_t: 4, false, Op::Grow, 8, 12;
+    grow_dn16_t: 16, false, Op::Grow, 8, 12;
+    shrink_up2_t: 2, true, Op::Shrink, 12, 12;
+    shrink_up4_t: 4, true, Op::Shrink, 12, 12;
+    shrink_up16_t: 16, true, Op::Shrink, 12, 12;
+    shrink_dn2_t: 2, false, Op::Shrink, 12, 12;
+    shrink_dn4_t: 4, false, Op::Shrink, 12, 12;
+    shrink_dn16_t: 16, false, Op::Shrink, 12, 12;
+    grow_zeroed_up8_t: 8, true, Op::GrowZeroed, 8, 12;
+    grow_zeroed_dn2_t: 2, false, Op::GrowZeroed, 8, 12
+);
